@@ -24,3 +24,5 @@ pub mod p;
 pub mod ser;
 #[cfg(kani)]
 pub mod cv;
+#[cfg(kani)]
+pub mod e2e;
